@@ -219,6 +219,11 @@ func genVisitWorkflow(rng *rand.Rand) *vWorkflow {
 	}
 	emitDispatch := func() {
 		b.add("  workflow_dispatch:")
+		if rng.Intn(3) == 0 {
+			// the event without any input declaration
+			events = append(events, "(d,())")
+			return
+		}
 		b.add("    inputs:")
 		var items []string
 		for _, n := range []string{"who", "flag", "lvl"} {
